@@ -379,12 +379,18 @@ func (c *checker) leaf(cs *wireCase) {
 			if err != nil {
 				return err
 			}
+			if !in.Dec.Ok {
+				return nil // accepted although the leaf has no decoding: reported by accept()
+			}
 			want, _ := in.Dec.V.Decode()
 			if !treeLeaf(&rle.Leaf).Equal(want) || rle.Index != 7 {
 				c.violate("RawLogEntryFromLeaf(leaf_input)", "wrong-value", fmt.Sprintf("leaf %s parsed as %s", want, treeLeaf(&rle.Leaf)), in)
 			}
 			// Cert / Chain: the leaf certificate and extra_data's chain, or extra_data's precertificate and chain
-			wantCert, wantChain := want.Items[2].Items[2], extraVal
+			wantCert, wantChain := none, extraVal
+			if len(want.Items) == 3 && len(want.Items[2].Items) == 6 {
+				wantCert = want.Items[2].Items[2]
+			}
 			if extraVal.K == "struct" {
 				wantCert, wantChain = extraVal.Items[0], extraVal.Items[1]
 			}
@@ -459,6 +465,9 @@ func (c *checker) chain(cs *wireCase) {
 			rle, err := ct.RawLogEntryFromLeaf(3, &ct.LeafEntry{LeafInput: leafInput, ExtraData: b})
 			if err != nil {
 				return err
+			}
+			if !in.Dec.Ok {
+				return nil
 			}
 			want, _ := in.Dec.V.Decode()
 			wantChain := want
